@@ -11,6 +11,7 @@ import (
 	"path"
 	"path/filepath"
 	"reflect"
+	"strings"
 
 	"github.com/akalin/gopar/rsec16"
 )
@@ -28,7 +29,25 @@ func (io defaultFileIO) ReadFile(path string) ([]byte, error) {
 }
 
 func (io defaultFileIO) FindWithPrefixAndSuffix(prefix, suffix string) ([]string, error) {
-	return filepath.Glob(prefix + "*" + suffix)
+	// Match the prefix and suffix literally; they come from the
+	// index file's name, which may contain glob metacharacters.
+	dir, namePrefix := filepath.Split(prefix)
+	dirToRead := dir
+	if dirToRead == "" {
+		dirToRead = "."
+	}
+	infos, err := ioutil.ReadDir(dirToRead)
+	if err != nil {
+		return nil, err
+	}
+	var matches []string
+	for _, info := range infos {
+		name := info.Name()
+		if len(name) >= len(namePrefix)+len(suffix) && strings.HasPrefix(name, namePrefix) && strings.HasSuffix(name, suffix) {
+			matches = append(matches, dir+name)
+		}
+	}
+	return matches, nil
 }
 
 func (io defaultFileIO) WriteFile(path string, data []byte) error {
